@@ -1,25 +1,26 @@
 import Nv.Proofs.C16Sess
 /-!
-C16 — quiescent states and the progress measure of one session (proved configuration).
+C16 — quiescent states and the progress measure of one session (proved configuration, exit callback returns).
 -/
+set_option linter.unusedSimpArgs false
 namespace Nv.C16
 
 /-- the only quiescent states that are not `ended` -/
 def waiting (s : Sess) : Prop :=
-  s.onceDone = false ∧ s.exits = 0 ∧ s.decs = 0 ∧ s.closes = 0 ∧ s.recvPc = .reading ∧ s.peerClosed = false ∧
+  s.onceTaken = false ∧ s.exits = 0 ∧ s.decs = 0 ∧ s.closes = 0 ∧ s.recvPc = .reading ∧ s.peerClosed = false ∧
   ((s.sendPc = .idle ∧ s.q = [] ∧ s.qClosed = false) ∨
    (∃ x, s.sendPc = .writing x ∧ s.peerDrain = false ∧ s.wfault = false))
 
 theorem sendStepP_none {s : Sess} (hs : sendStepP s = none) :
     (s.sendPc = .idle ∧ s.q = [] ∧ s.qClosed = false) ∨
     (∃ x, s.sendPc = .writing x ∧ s.wfault = false ∧ s.peerClosed = false ∧ s.closes = 0 ∧ s.peerDrain = false) ∨
-    s.sendPc = .done := by
+    (s.sendPc = .quitting .enter ∧ s.onceDone = false ∧ s.onceTaken = true) ∨
+    s.sendPc = .quitting .stuck ∨ s.sendPc = .done := by
   unfold sendStepP at hs
   split at hs
   · rename_i hpc
     split at hs
-    · rename_i hq
-      split at hs
+    · split at hs
       · cases hs
       · left; simp_all
     · split at hs <;> cases hs
@@ -29,57 +30,145 @@ theorem sendStepP_none {s : Sess} (hs : sendStepP s = none) :
     · split at hs
       · cases hs
       · right; left; exact ⟨x, by simp_all⟩
+  · rename_i hpc
+    split at hs
+    · cases hs
+    · split at hs
+      · right; right; left; simp_all
+      · cases hs
   · cases hs
-  · right; right; assumption
+  · cases hs
+  · cases hs
+  · right; right; right; left; assumption
+  · right; right; right; right; assumption
 
 theorem recvStepP_none {s : Sess} (hr : recvStepP s = none) :
-    (s.recvPc = .reading ∧ s.peerClosed = false ∧ s.closes = 0) ∨ s.recvPc = .done := by
+    (s.recvPc = .reading ∧ s.peerClosed = false ∧ s.closes = 0) ∨
+    (∃ p, s.recvPc = .quitting p .enter ∧ s.onceDone = false ∧ s.onceTaken = true) ∨
+    (∃ p, s.recvPc = .quitting p .stuck) ∨ s.recvPc = .done := by
   unfold recvStepP at hr
   split at hr
   · split at hr
     · cases hr
     · left; simp_all
+  · rename_i p hpc
+    split at hr
+    · cases hr
+    · split at hr
+      · right; left; exact ⟨p, by simp_all⟩
+      · cases hr
   · cases hr
-  · right; assumption
+  · cases hr
+  · cases hr
+  · rename_i p hpc; right; right; left; exact ⟨p, hpc⟩
+  · right; right; right; assumption
+
+/-- nobody is inside the body of the once: it is either untouched or finished -/
+theorem no_owner {s : Sess} (h : SInv s) (hs : ∀ st, s.sendPc = .quitting st → st = .enter)
+    (hr : ∀ p st, s.recvPc = .quitting p st → st = .enter) (hd : s.onceDone = false) : s.onceTaken = false := by
+  cases ht : s.onceTaken
+  · rfl
+  · exfalso
+    obtain ⟨_, o⟩ := h.mid ht hd
+    rcases o with ⟨st, o, ne⟩ | ⟨p, st, o, ne⟩
+    · exact ne (hs st o)
+    · exact ne (hr p st o)
 
 theorem quiescentP_cases {s : Sess} (h : SInv s) (hs : sendStepP s = none) (hr : recvStepP s = none) :
     ended s ∨ waiting s := by
-  obtain ⟨h1, h2, h3, h4, h5, h6, h7⟩ := h
+  have hcl := once_of_closes h
+  have hS := h
+  obtain ⟨h1, h2, h3, h4, h5, h6, h7, h8, h9⟩ := h
   unfold ended waiting
-  rcases sendStepP_none hs with ⟨a1, a2, a3⟩ | ⟨x, a1, a2, a3, a4, a5⟩ | a1 <;>
-  rcases recvStepP_none hr with ⟨b1, b2, b3⟩ | b1 <;>
-  cases ho : s.onceDone <;> simp_all
-
-theorem measure_quitP (s : Sess) : (quitP s).q = s.q ∧ (quitP s).sendPc = s.sendPc ∧ (quitP s).recvPc = s.recvPc := by
-  unfold quitP; split <;> simp
+  rcases sendStepP_none hs with ⟨a1, a2, a3⟩ | ⟨x, a1, a2, a3, a4, a5⟩ | ⟨a1, a2, a3⟩ | a1 | a1
+  · -- send parked on an empty open queue
+    have hd : s.onceDone = false := by
+      cases hd : s.onceDone
+      · rfl
+      · have := (h6 hd).2.2.2.2; simp [a3] at this
+    rcases recvStepP_none hr with ⟨b1, b2, b3⟩ | ⟨p, b1, b2, b3⟩ | ⟨p, b1⟩ | b1
+    · have ht := no_owner hS (by intro st e; rw [a1] at e; cases e) (by intro p st e; rw [b1] at e; cases e) hd
+      obtain ⟨_, e0, d0, c0⟩ := h5 ht
+      right; exact ⟨ht, e0, d0, c0, b1, b2, Or.inl ⟨a1, a2, a3⟩⟩
+    · exfalso
+      have ht := no_owner hS (by intro st e; rw [a1] at e; cases e) (by intro p' st e; rw [b1] at e; cases e; rfl) hd
+      simp [ht] at b3
+    · exfalso; have := (h9 p .stuck b1 (by simp)).2.2.1; simp [stageOk] at this
+    · exfalso; have := h4 b1; simp [hd] at this
+  · -- send blocked writing to a peer that does not read
+    have hd : s.onceDone = false := by
+      cases hd : s.onceDone
+      · rfl
+      · have := (h6 hd).2.2.2.1; omega
+    rcases recvStepP_none hr with ⟨b1, b2, b3⟩ | ⟨p, b1, b2, b3⟩ | ⟨p, b1⟩ | b1
+    · have ht := no_owner hS (by intro st e; rw [a1] at e; cases e) (by intro p st e; rw [b1] at e; cases e) hd
+      obtain ⟨_, e0, d0, c0⟩ := h5 ht
+      right; exact ⟨ht, e0, d0, c0, b1, b2, Or.inr ⟨x, a1, a5, a2⟩⟩
+    · exfalso
+      have ht := no_owner hS (by intro st e; rw [a1] at e; cases e) (by intro p' st e; rw [b1] at e; cases e; rfl) hd
+      simp [ht] at b3
+    · exfalso; have := (h9 p .stuck b1 (by simp)).2.2.1; simp [stageOk] at this
+    · exfalso; have := h4 b1; simp [hd] at this
+  · -- send blocked in exitOnce.Do: the owner must be the receive loop, which can move
+    exfalso
+    rcases recvStepP_none hr with ⟨b1, b2, b3⟩ | ⟨p, b1, b2, b3⟩ | ⟨p, b1⟩ | b1
+    · have ht := no_owner hS (by intro st e; rw [a1] at e; cases e; rfl) (by intro p st e; rw [b1] at e; cases e) a2
+      simp [ht] at a3
+    · have ht := no_owner hS (by intro st e; rw [a1] at e; cases e; rfl) (by intro p' st e; rw [b1] at e; cases e; rfl) a2
+      simp [ht] at a3
+    · have := (h9 p .stuck b1 (by simp)).2.2.1; simp [stageOk] at this
+    · have := h4 b1; simp [a2] at this
+  · exfalso; have := (h8 .stuck a1 (by simp)).2.2.1; simp [stageOk] at this
+  · -- send loop finished
+    have hd := h3 a1
+    obtain ⟨_, e1, d1, c1, _⟩ := h6 hd
+    rcases recvStepP_none hr with ⟨b1, b2, b3⟩ | ⟨p, b1, b2, b3⟩ | ⟨p, b1⟩ | b1
+    · omega
+    · simp [hd] at b2
+    · exfalso; have := (h9 p .stuck b1 (by simp)).2.2.1; simp [stageOk] at this
+    · left; exact ⟨e1, d1, c1, a1, b1, h2⟩
 
 theorem measure_sendStepP {s s' : Sess} (hs : sendStepP s = some s') : measure s' < measure s := by
-  have hq := measure_quitP s
   unfold sendStepP at hs
   unfold measure
   split at hs
   · split at hs
     · split at hs
-      · cases hs; simp_all [SendPc.weight]
+      · cases hs; simp_all [SendPc.weight, QStage.weight]
       · cases hs
-    · split at hs <;> (cases hs; simp_all [SendPc.weight]; try omega)
+    · split at hs <;> (cases hs; simp_all [SendPc.weight, QStage.weight]; try omega)
   · split at hs
-    · cases hs; simp_all [SendPc.weight]
+    · cases hs; simp_all [SendPc.weight, QStage.weight]
     · split at hs
-      · cases hs; simp_all [SendPc.weight]
+      · cases hs; simp_all [SendPc.weight, QStage.weight]
       · cases hs
-  · cases hs; simp_all [SendPc.weight]
+  · split at hs
+    · cases hs; simp_all [SendPc.weight, QStage.weight]
+    · split at hs
+      · cases hs
+      · cases hs; simp_all [SendPc.weight, QStage.weight]
+  · cases hs; simp_all [SendPc.weight, QStage.weight]
+  · cases hs; simp_all [SendPc.weight, QStage.weight]
+  · cases hs; simp_all [SendPc.weight, QStage.weight]
+  · cases hs
   · cases hs
 
 theorem measure_recvStepP {s s' : Sess} (hs : recvStepP s = some s') : measure s' < measure s := by
-  have hq := measure_quitP s
   unfold recvStepP at hs
   unfold measure
   split at hs
   · split at hs
-    · cases hs; simp_all [RecvPc.weight]
+    · cases hs; simp_all [RecvPc.weight, QStage.weight]
     · cases hs
-  · cases hs; simp_all [RecvPc.weight]
+  · split at hs
+    · cases hs; simp_all [RecvPc.weight, QStage.weight]
+    · split at hs
+      · cases hs
+      · cases hs; simp_all [RecvPc.weight, QStage.weight]
+  · cases hs; simp_all [RecvPc.weight, QStage.weight]
+  · cases hs; simp_all [RecvPc.weight, QStage.weight]
+  · cases hs; simp_all [RecvPc.weight, QStage.weight]
+  · cases hs
   · cases hs
 
 end Nv.C16
